@@ -20,8 +20,9 @@ import os
 import vlib
 
 OWN_FILES = ["C37/CseModel.v", "C37/CseLib.v", "C37/CseCheck.v", "C37/CseSpec.v", "C37/CseCheckProofs.v",
-             "C37/CseNames.v", "C37/CseProofs.v", "C37/CseRefuted.v"]
-SHARED_DEPS = ["Expr/IO.vo", "Expr/Arith.vo", "Expr/CmpProofs.vo", "Expr/HashProofs.vo", "C39/QueryModel.vo"]
+             "C37/CseNames.v", "C37/CseProofs.v", "C37/CseFlow.v", "C37/CseSem.v", "C37/CseLibProofs.v",
+             "C37/CseExcl.v", "C37/CseRefuted.v"]
+SHARED_DEPS = ["Expr/IO.vo", "Expr/Arith.vo", "Expr/CmpProofs.vo", "Expr/HashProofs.vo", "C39/QueryModel.vo", "C39/ArgsDown.vo", "C39/OccProofs.vo"]
 PROOF_MODULES = []   # C37 files are not in coq/_CoqProject yet: compiled directly by build_own (see the report)
 OBLIGATIONS = []     # filled below from the P_*.v files that exist
 
@@ -92,6 +93,8 @@ CORPUS = [
     "(pow (i 2) (neg x)) ;; (pow (i 2) x)",
     "(mul (pow x y) (pow x (neg y))) ;; (pow x y)",
     "(addv (mul (i 2) x) (mul (i 3) y) z) ;; (addv (mul (i 2) x) (mul (i 3) y) w)",
+    # known finding: regrouping a sum changes its canonical form (b + z - (b + z) is a canonical Add, the regrouped sum cancels)
+    "(addv (neg (addv b z)) y (addv b z)) ;; (f1 sin (addv b z))",
     # known findings: in-band function names, Piecewise conditions
     "(fs add x y) ;; (i 1)",
     "(fs mul x y) ;; (fs mul x y)",
@@ -203,6 +206,8 @@ def classify(cls, hints, detail=""):
         return "C37/%s:funsym-named-add-mul-pow" % cls
     if cls == "unfaithful" and "piecewise" in hints:
         return "C37/unfaithful:piecewise-condition-replaced"
+    if cls == "unfaithful" and detail.startswith("expand-equal"):
+        return "C37/unfaithful:regrouped-sum-other-canonical-form"
     return "C37/" + cls
 
 
@@ -292,6 +297,15 @@ def explore(ctx, drv, model, cases, stats, search=False):
         stats["backsubst_" + ("agrees" if st == "OK" else "outside_model" if st in ("UNMODELLED", "NA", "FUEL") else "differs")] = \
             stats.get("backsubst_" + ("agrees" if st == "OK" else "outside_model" if st in ("UNMODELLED", "NA", "FUEL") else "differs"), 0) + 1
         stats["wf_inputs" if f.get("WF") == "1" else "non_wf_inputs"] = stats.get("wf_inputs" if f.get("WF") == "1" else "non_wf_inputs", 0) + 1
+        # the per-instance hypothesis of the acyclicity / faithfulness theorems
+        xc = f.get("XC", "?")
+        stats["excl_complete_" + {"1": "holds", "0": "FAILS"}.get(xc, "not_evaluated")] = stats.get("excl_complete_" + {"1": "holds", "0": "FAILS"}.get(xc, "not_evaluated"), 0) + 1
+        if xc == "0":
+            ctx.violation("C37/excluded-symbols-incomplete",
+                          "find_repeated (model) misses a Symbol of the inputs es = [%s]: the hypothesis excl_complete of the acyclicity / "
+                          "faithfulness theorems fails on this input" % cases[i], rep)
+        stats["inputs_" + ("outside_guard" if f.get("GUARD") == "1" else "inside_guard(faithfulness theorem applies)")] = \
+            stats.get("inputs_" + ("outside_guard" if f.get("GUARD") == "1" else "inside_guard(faithfulness theorem applies)"), 0) + 1
         csec = sec.get("C", "")
         if " => " in csec:
             stats.setdefault("nontrivial", set()).add(sec.get("E", ""))
